@@ -5,7 +5,7 @@ META = {
     'rule': ('The process executing the victim task is killed at every enumerated point of its save: each executed '
              'labtech line of the save path (LINE failpoint with action SIGKILL; first pass counts the lines), each '
              'write() call boundary of metadata and data file and a mid-write split (first half written), with the '
-             'buffer either flushed+fsynced or abandoned; SIGTERM instead of SIGKILL on a sample, and the real terminate-on-second-interrupt path (fork worker parks at line k of its save, the caller receives two real SIGINTs, Runner.stop() terminates it), and SIGTERM delivered to a fork worker whose program installed a SIGTERM handler calling sys.exit (the worker unwinds through the exception handlers of labtech); x cache format '
+             'buffer either flushed+fsynced or abandoned; SIGTERM instead of SIGKILL on a sample, and the real terminate-on-second-interrupt path (fork worker parks at line k of its save, the caller receives two real SIGINTs, Runner.stop() terminates it - also in a program whose inherited SIGTERM handler calls sys.exit, where the terminated worker must clean up after itself), and SIGTERM delivered to a fork worker whose program installed a SIGTERM handler calling sys.exit (the worker unwinds through the exception handlers of labtech); x cache format '
              '{pickle, json} x {first save, overwrite} x shape {small, big} x victim {process running the serial '
              'backend (a forked sacrificial copy of the harness; a fresh interpreter on a sample), fork worker whose '
              'parent survives}. The verdict is taken afterwards by a process that never ran the save: is_cached, '
@@ -159,6 +159,10 @@ def run_case(case, rep=None, count_only=False):
                     time.sleep(0.01)
             th = threading.Thread(target=interrupter, daemon=True)
             signal.signal(signal.SIGINT, signal.default_int_handler)
+            if kill.get('handler'):
+                # ... in a program whose SIGTERM handler exits cleanly: the worker terminated by Runner.stop() unwinds
+                # through the save's own clean-up
+                signal.signal(signal.SIGTERM, lambda *_a: sys.exit(1))
             res = {}
             try:
                 th.start()
@@ -174,7 +178,17 @@ def run_case(case, rep=None, count_only=False):
                 pass
             finally:
                 signal.signal(signal.SIGINT, signal.SIG_IGN)
+                if kill.get('handler'):
+                    signal.signal(signal.SIGTERM, signal.SIG_DFL)
             time.sleep(0.2)
+            if kill.get('handler'):
+                # the terminated worker is unwinding through labtech's clean-up: let it finish by itself (the
+                # harness's own SIGKILL sweep must not be what leaves the entry half-written)
+                import multiprocessing
+                t_end = time.monotonic() + 20
+                while time.monotonic() < t_end and any(
+                        p.is_alive() for p in multiprocessing.active_children() if 'Manager' not in p.name):
+                    time.sleep(0.02)
             engine.reap_children()
             signal.signal(signal.SIGINT, signal.default_int_handler)
         else:
@@ -299,6 +313,8 @@ def enumerate_cases(rep, stride, n_fresh):
                     elif shape == 'small':
                         for k in range(3, n + 1, max(1, n // (3 if stride > 1 else 24))):
                             cases.append(dict(cfg, kill={'kind': 'line', 'k': k, 'sig': 'park'}))
+                        for k in range(2 * n // 3, n + 1, 2 if stride == 1 else 5):
+                            cases.append(dict(cfg, kill={'kind': 'line', 'k': k, 'sig': 'park', 'handler': True}))
                         # graceful termination must clean up after itself: every line of the last third of the save
                         # (where files are open), a stride before that
                         for k in list(range(2, 2 * n // 3, max(1, n // 10))) + list(range(2 * n // 3, n + 1, 1 if stride == 1 else 2)):
